@@ -50,7 +50,7 @@ def dataArm (v : SVariant ν) (nested : Meta) : Outcome ν :=
       (match nested with
        | .list _ items bad _ _ _ =>
            (match bad with
-            | some (msg, sp) => .err (.leaf (.custom msg) [] (some sp))
+            | some (msg, sp) => .err ((Err.leaf (.custom msg) [] (some sp)).at v.name)
             | none =>
                 match coreLoop s {} items with
                 | .error m => .panic m
